@@ -100,6 +100,9 @@ class C01(Plugin):
             out.append({"markup": m, "fragment": False, "container": "div", "scripting": False, "ns": True})
         for c, m in gen_markup.fragment_directed(gen_markup.dispatch_keys()):
             out.append({"markup": m, "fragment": True, "container": c, "scripting": False, "ns": True})
+        # foreign elements with HTML names + integration points: every name-only test meets a foreign namesake
+        for i, m in enumerate(gen_markup.foreign_directed()):
+            out.append({"markup": m, "fragment": False, "container": "div", "scripting": False, "ns": i % 5 != 0})
         # formatting elements that differ only in attribute values / names (Noah's Ark, adoption agency)
         for f in ("b", "a", "font", "nobr"):
             for attrs in (["class=a", "class=b", "class=c", "class=d"], ["class=a"] * 4, ["id=a", "class=a", "id=a", "id=a title=t"],
